@@ -1,8 +1,279 @@
-(** C11 — stub while the proofs are being written *)
-From Coq Require Import List ZArith Bool Arith.
-From TI Require Import model.KittyChunks proofs.KittyChunksProofs.
+(** C11 — image iteration matches frame-by-frame rendering and leaks nothing.
 
+    Only statements, each closed by [exact <lemma>], and [Print Assumptions].
+
+    PART 1 (generator logic, proofs/ImgIterProofs.v).  [ImgIter] (model/ImgIter.v) is the
+    code model of [ImageIterator]: the two-phase generator [_animate] as a state machine
+    over its suspension points, with the frame cache, [loop_no], the writes to the image's
+    seek position and the ghost "the iterator's PIL image has not yet been handed to
+    [_close_image]".  [ImgIterSpec] (model/ImgIterSpec.v) is the documented behaviour as a
+    function of the history alone.  Rendering + formatting of frame [k] at rendered size [z]
+    is the parameter [fmt_frame k z : Ok frame | Eof | Err]; [renderer_ok]: the image has
+    N >= 1 frames and EOFError is raised exactly for frame number N.  [hash] is Python's hash
+    of the rendered size, [hash_separates hash (sizes_of z0 ops)]: it tells apart the sizes
+    the image takes during the history (needed only when frames are cached).
+    [trace s ops] lists, per operation, (outcome incl. the frame, image.tell(), loop_no,
+    image still open).  [after .. ops] is the state reached by history [ops].
+
+    PART 2 (control flow of the resource handling, proofs/SkelC11.v): effect skeletons,
+    translated from the source on every run (draw, _display_animated, _renderer) and
+    hand-written (model/ImgSkel.v: _get_render_data and the three _render_image), analysed
+    for every path, every iteration count and every fault position ([cfg_c11]: every call
+    may raise KeyboardInterrupt or an Exception, before or after taking effect).
+
+    The code modelled is /repo with pending_fixes/C11_close_unrendered_images.diff applied.
+    File-descriptor balance, temp-file lifetime and equality of [fmt_frame] with direct
+    formatting are NOT theorems: they depend on Pillow, the OS and CPython and are observed
+    at run time by the correspondence (harness/props/c11.py). *)
+From Coq Require Import List ZArith Bool Arith.
+Import ListNotations.
+From TI Require Import lib.Eff gen.Skeletons.
+From TI Require Import model.KittyChunks proofs.KittyChunksProofs.
+From TI Require Import model.ImgIter model.ImgIterSpec proofs.ImgIterProofs.
+From TI Require Import model.ImgSkel proofs.SkelC11.
+Local Open Scope Z_scope.
+
+(* ------------------------------------------------------------------ PART 1 *)
+
+(** for EVERY history of next / seek / close / deletion / image-size changes: outcomes
+    (frames included), image.tell(), loop_no and the life of the iterator's image are those
+    of the specification *)
+Theorem C11_imgiter_refines_spec :
+  forall (Str Size : Type) (fmt_frame : nat -> Size -> res Str) (hash : Size -> Z) (N : nat)
+         (cached : bool) (repeat pos0 : Z) (z0 : Size) (ops : list (op Size)),
+    renderer_ok fmt_frame N -> repeat <> 0 ->
+    (cached = true -> hash_separates hash (sizes_of z0 ops)) ->
+    trace fmt_frame hash N cached (init Str repeat pos0 z0) ops =
+    strace fmt_frame N (sinit repeat pos0 z0) ops.
+Proof. exact imgiter_refines_spec. Qed.
+Print Assumptions C11_imgiter_refines_spec.
+
+(** plain iteration, [repeat] = L+1 > 0: exactly the frames F 0 .. F (N-1), in order, once
+    per pass, the seek position following, the countdown showing L+1, L, .., 1; then
+    StopIteration for ever with position 0, countdown 0 and the image closed *)
+Theorem C11_imgiter_frames :
+  forall (Str Size : Type) (fmt_frame : nat -> Size -> res Str) (hash : Size -> Z) (N : nat)
+         (cached : bool) (F : nat -> Str) (z0 : Size) (L m : nat) (pos0 : Z),
+    renderer_ok fmt_frame N ->
+    (forall k, (k < N)%nat -> fmt_frame k z0 = Ok (F k)) ->
+    trace fmt_frame hash N cached (init Str (Z.of_nat (S L)) pos0 z0) (repeat Next (S L * N + m)) =
+    passes N F (S L) ++ repeat (stopped Str) m.
+Proof. exact imgiter_frames. Qed.
+Print Assumptions C11_imgiter_frames.
+
+(** a negative [repeat]: the same pass for ever, the countdown unchanged *)
+Theorem C11_imgiter_frames_infinite :
+  forall (Str Size : Type) (fmt_frame : nat -> Size -> res Str) (hash : Size -> Z) (N : nat)
+         (cached : bool) (F : nat -> Str) (z0 : Size) (r : Z) (p : nat) (pos0 : Z),
+    renderer_ok fmt_frame N ->
+    (forall k, (k < N)%nat -> fmt_frame k z0 = Ok (F k)) -> r < 0 ->
+    trace fmt_frame hash N cached (init Str r pos0 z0) (repeat Next (p * N)) =
+    concat (repeat (pass_frames N F r) p).
+Proof. exact imgiter_frames_infinite. Qed.
+Print Assumptions C11_imgiter_frames_infinite.
+
+(** after any history that leaves the iterator started and open, seek(p) replaces the index
+    of the next frame and does not consume a pass: the seek moves neither the position nor
+    the countdown, the next frame is frame p formatted at the current size (or its failure),
+    and the countdown is still the same *)
+Theorem C11_seek_replaces_next_index :
+  forall (Str Size : Type) (fmt_frame : nat -> Size -> res Str) (hash : Size -> Z) (N : nat)
+         (cached : bool) (repeat pos0 : Z) (z0 : Size) (ops : list (op Size)) (p : Z),
+    renderer_ok fmt_frame N -> repeat <> 0 ->
+    (cached = true -> hash_separates hash (sizes_of z0 ops)) ->
+    let s := after fmt_frame hash N cached repeat pos0 z0 ops in
+    (ph s = P1 \/ ph s = P2) -> 0 <= p < Z.of_nat N ->
+    let s1 := fst (step fmt_frame hash N cached s (Seek p)) in
+    let r2 := step fmt_frame hash N cached s1 Next in
+    snd (step fmt_frame hash N cached s (Seek p)) = OSeekOk /\ pos s1 = pos s /\ loop_no s1 = loop_no s /\
+    loop_no (fst r2) = loop_no s /\ pos (fst r2) = p /\
+    snd r2 = match fmt_frame (Z.to_nat p) (size s) with
+             | Ok f => OYield (Z.to_nat p) f
+             | _ => ORaise
+             end.
+Proof. exact seek_replaces_next_index. Qed.
+Print Assumptions C11_seek_replaces_next_index.
+
+(** after any history: a yielded frame has a valid number k, IS the direct formatting of
+    frame k at the image's current size, image.tell() = k, the iterator's image stays open;
+    every operation other than next() leaves image.tell() alone *)
+Theorem C11_seek_position_tracks_last_yield :
+  forall (Str Size : Type) (fmt_frame : nat -> Size -> res Str) (hash : Size -> Z) (N : nat)
+         (cached : bool) (repeat pos0 : Z) (z0 : Size) (ops : list (op Size)) (o : op Size),
+    renderer_ok fmt_frame N -> repeat <> 0 ->
+    (cached = true -> hash_separates hash (sizes_of z0 (ops ++ [o]))) ->
+    let s := after fmt_frame hash N cached repeat pos0 z0 ops in
+    (forall s' k f, step fmt_frame hash N cached s o = (s', OYield k f) ->
+       o = Next /\ (k < N)%nat /\ pos s' = Z.of_nat k /\ fmt_frame k (size s) = Ok f /\ img_open s' = true)
+    /\ (o <> Next -> pos (fst (step fmt_frame hash N cached s o)) = pos s).
+Proof. exact seek_position_tracks_last_yield. Qed.
+Print Assumptions C11_seek_position_tracks_last_yield.
+
+(** when next() first reports the end: image.tell() = 0, loop_no = 0, the source PIL image
+    has been sought to frame 0, the iterator is closed and its image handed to _close_image *)
+Theorem C11_exhaustion_resets_to_zero :
+  forall (Str Size : Type) (fmt_frame : nat -> Size -> res Str) (hash : Size -> Z) (N : nat)
+         (cached : bool) (repeat pos0 : Z) (z0 : Size) (ops : list (op Size)) (s' : st Str Size),
+    renderer_ok fmt_frame N -> repeat <> 0 ->
+    (cached = true -> hash_separates hash (sizes_of z0 ops)) ->
+    let s := after fmt_frame hash N cached repeat pos0 z0 ops in
+    ph s <> PEnd -> step fmt_frame hash N cached s Next = (s', OStop) ->
+    pos s' = 0 /\ loop_no s' = Some 0 /\ src_reset s' = true /\ ph s' = PEnd /\ img_open s' = false.
+Proof. exact exhaustion_resets_to_zero. Qed.
+Print Assumptions C11_exhaustion_resets_to_zero.
+
+(** a failing frame closes the iterator and its image *)
+Theorem C11_failure_closes :
+  forall (Str Size : Type) (fmt_frame : nat -> Size -> res Str) (hash : Size -> Z) (N : nat)
+         (cached : bool) (repeat pos0 : Z) (z0 : Size) (ops : list (op Size)) (o : op Size) (s' : st Str Size),
+    let s := after fmt_frame hash N cached repeat pos0 z0 ops in
+    ph s <> PEnd -> step fmt_frame hash N cached s o = (s', ORaise) -> ph s' = PEnd /\ img_open s' = false.
+Proof. exact failure_closes. Qed.
+Print Assumptions C11_failure_closes.
+
+(** the generator never spins without yielding (the fuel of the model is never exhausted) *)
+Theorem C11_never_hangs :
+  forall (Str Size : Type) (fmt_frame : nat -> Size -> res Str) (hash : Size -> Z) (N : nat)
+         (cached : bool) (repeat pos0 : Z) (z0 : Size) (ops : list (op Size)) (o : op Size),
+    renderer_ok fmt_frame N -> repeat <> 0 ->
+    (cached = true -> hash_separates hash (sizes_of z0 (ops ++ [o]))) ->
+    snd (step fmt_frame hash N cached (after fmt_frame hash N cached repeat pos0 z0 ops) o) <> OHang.
+Proof. exact never_hangs. Qed.
+Print Assumptions C11_never_hangs.
+
+(** C09 for image iterators: with and without the frame cache the caller sees the same *)
+Theorem C11_imgiter_cache_transparent :
+  forall (Str Size : Type) (fmt_frame : nat -> Size -> res Str) (hash : Size -> Z) (N : nat)
+         (repeat pos0 : Z) (z0 : Size) (ops : list (op Size)),
+    renderer_ok fmt_frame N -> repeat <> 0 -> hash_separates hash (sizes_of z0 ops) ->
+    trace fmt_frame hash N true (init Str repeat pos0 z0) ops =
+    trace fmt_frame hash N false (init Str repeat pos0 z0) ops.
+Proof. exact imgiter_cache_transparent. Qed.
+Print Assumptions C11_imgiter_cache_transparent.
+
+(** the caching decision of __init__: never for a single pass; otherwise the flag, or
+    n_frames <= the bound *)
+Theorem C11_single_pass_not_cached : forall c n, cache_enabled 1 c n = false.
+Proof. exact single_pass_not_cached. Qed.
+Print Assumptions C11_single_pass_not_cached.
+
+(** close() / deletion, in ANY state: the image is handed to _close_image, and from then on
+    next() stops, seek() raises, nothing is rendered, image.tell() and loop_no never move *)
+Theorem C11_close_is_final :
+  forall (Str Size : Type) (fmt_frame : nat -> Size -> res Str) (hash : Size -> Z) (N : nat)
+         (cached : bool) (s : st Str Size) (o : op Size) (ops : list (op Size)),
+    o = Close \/ o = Drop ->
+    trace fmt_frame hash N cached s (o :: ops) =
+    (OClosed, pos s, loop_no s, false) :: map (ended_view Str N (pos s) (loop_no s)) ops.
+Proof. exact close_is_final. Qed.
+Print Assumptions C11_close_is_final.
+
+(** the same after exhaustion or a failure *)
+Theorem C11_ended_is_final :
+  forall (Str Size : Type) (fmt_frame : nat -> Size -> res Str) (hash : Size -> Z) (N : nat)
+         (cached : bool) (s : st Str Size) (ops : list (op Size)),
+    ph s = PEnd -> img_open s = false ->
+    trace fmt_frame hash N cached s ops = map (ended_view Str N (pos s) (loop_no s)) ops.
+Proof. exact ended_is_final. Qed.
+Print Assumptions C11_ended_is_final.
+
+(** native-animation requests fall back to whole-image frames (decision rule of
+    ITerm2Image._render_image; the frames of an iterator are rendered with frame = True) *)
 Theorem C11_anim_branch :
   forall animated frame, frame = true \/ animated = false -> iterm2_branch Anim animated frame = BWhole.
 Proof. intros a f H. exact (proj2 (anim_falls_back_to_whole a f) H). Qed.
 Print Assumptions C11_anim_branch.
+
+(* ------------------------------------------------------------------ PART 2 *)
+
+(** draw(): on EVERY path and whatever raises wherever, the image it opened has been handed
+    to _close_image, the size setting and the seek position are those at entry *)
+Theorem C11_draw_leaves_nothing :
+  forall vs, length vs = nv_BaseImage_draw ->
+  forall o s', eval cfg_c11 false (protect sk_BaseImage_draw) (init vs) o s' ->
+    imgs_closed s' = true /\ szmod s' = false /\ skmod s' = false.
+Proof. exact draw_leaves_nothing. Qed.
+Print Assumptions C11_draw_leaves_nothing.
+
+Theorem C11_images_balanced :
+  forall vs, length vs = nv_BaseImage_draw ->
+  forall o s', eval cfg_c11 false (protect sk_BaseImage_draw) (init vs) o s' -> imgs_closed s' = true.
+Proof. exact images_balanced. Qed.
+Print Assumptions C11_images_balanced.
+
+(** an animated draw() puts the seek position back and closes its frame iterator (fault
+    positions: frame renders incl. the generator's next(), frame writes, flushes, sleeps) *)
+Theorem C11_draw_restores_seek :
+  forall vs, length vs = nv_BaseImage_draw ->
+  forall o s', eval cfg_draw false (protect sk_BaseImage_draw) (init vs) o s' ->
+    skmod s' = false /\ iter_open s' = false.
+Proof. exact draw_restores_seek. Qed.
+Print Assumptions C11_draw_restores_seek.
+
+Theorem C11_display_animated_restores :
+  forall vs, length vs = nv_BaseImage__display_animated ->
+  forall o s', eval cfg_c11 false sk_BaseImage__display_animated (init vs) o s' ->
+    skmod s' = false /\ imgs_closed s' = true.
+Proof. exact display_animated_restores. Qed.
+Print Assumptions C11_display_animated_restores.
+
+Theorem C11_display_animated_closes_iterator :
+  forall vs, length vs = nv_BaseImage__display_animated ->
+  forall o s', eval cfg_draw false sk_BaseImage__display_animated (init vs) o s' -> iter_open s' = false.
+Proof. exact display_animated_closes_iterator. Qed.
+Print Assumptions C11_display_animated_closes_iterator.
+
+(** rendering never alters the image's size setting (fixed or dynamic) *)
+Theorem C11_renderer_restores_size :
+  forall vs, length vs = nv_BaseImage__renderer ->
+  forall o s', eval cfg_all false (sk_BaseImage__renderer (Op Render)) (init vs) o s' -> szmod s' = false.
+Proof. exact renderer_restores_size. Qed.
+Print Assumptions C11_renderer_restores_size.
+
+Theorem C11_old_draw_restores_size :
+  forall vs, length vs = nv_BaseImage_draw ->
+  forall o s', eval cfg_all false (protect sk_BaseImage_draw) (init vs) o s' -> szmod s' = false.
+Proof. exact old_draw_restores_size. Qed.
+Print Assumptions C11_old_draw_restores_size.
+
+(** _renderer: if the renderer raises, the image has been handed to _close_image *)
+Theorem C11_renderer_closes_on_failure :
+  forall vs, length vs = nv_BaseImage__renderer ->
+  forall k s', eval cfg_c11 false (sk_BaseImage__renderer (sq [Op Other; Op Render; Op Other])) (init vs) (ORaise k) s' ->
+    imgs_closed s' = true.
+Proof. exact renderer_closes_on_failure. Qed.
+Print Assumptions C11_renderer_closes_on_failure.
+
+(** format() / str() / a still draw() in each style: _renderer around _render_image with
+    frame = False closes the image on EVERY exit and restores the size setting *)
+Theorem C11_format_images_balanced :
+  forall r, In r render_images ->
+  forall vs, length vs = nv_imgskel ->
+  forall o s', eval cfg_c11 false (sk_BaseImage__renderer (as_renderer r)) (init vs) o s' ->
+    imgs_closed s' = true /\ szmod s' = false.
+Proof. exact format_images_balanced. Qed.
+Print Assumptions C11_format_images_balanced.
+
+(** a _render_image(img, frame=False) that returns has handed img to _close_image *)
+Theorem C11_render_image_closes_its_image :
+  forall r, In r render_images ->
+  forall vs, length vs = nv_imgskel ->
+  forall o s', eval cfg_c11 false (sq [Op (OpenImg 0); as_renderer r]) (init vs) o s' ->
+    (forall k, o <> ORaise k) -> imgs_closed s' = true.
+Proof. exact render_image_closes_its_image. Qed.
+Print Assumptions C11_render_image_closes_its_image.
+
+(** a frame of an iterator (frame = True) never closes the image it is given, on no path *)
+Theorem C11_frame_image_never_closed :
+  forall r, In r render_images ->
+  forall vs, length vs = nv_imgskel ->
+  forall o s', eval cfg_c11 false (as_frame r) (init vs) o s' -> get 0 (imgs s') = true.
+Proof. exact frame_image_never_closed. Qed.
+Print Assumptions C11_frame_image_never_closed.
+
+(** BEFORE the repair (no handler in _renderer) the balance is refuted for every style *)
+Theorem C11_unguarded_renderer_leaks :
+  forallb (fun r => negb (analyze cfg_c11 nv_imgskel (sq [Op (OpenImg 0); as_renderer r])
+                            (fun _ s => imgs_closed s))) render_images = true.
+Proof. exact unguarded_renderer_leaks. Qed.
+Print Assumptions C11_unguarded_renderer_leaks.
